@@ -28,6 +28,7 @@ Partial / notes (kept at full strength as `Full…` with a proved negation):
    F7): equal by the key function's own contract and for the SQL stores; the memory store differs.
 -/
 import OpenFGAVerif.Proofs.KeysTuple
+import OpenFGAVerif.Props.ReqClone
 
 namespace OpenFGAVerif.C24
 open OpenFGAVerif.Model.Keys OpenFGAVerif.Proofs.KeysCodec OpenFGAVerif.Proofs.KeysSort
